@@ -348,4 +348,139 @@ theorem phase_progress {P0 s' : Sys} (a : All iss mt P0) (hm : ∀ x, SPACE_FOR_
         apply hne
         exact ⟨by rw [rk_some hta, sa]; rfl, by rw [rk_some htb, sb]; rfl⟩
 
+/-! ## the fair round and the induction -/
+
+theorem fX_congr {t t1 u u1 : Tcb} (h1 : t1.state = t.state) (h2 : t1.outgoing.oneshot = t.outgoing.oneshot)
+    (h3 : u1.state = u.state) : fX t1 u1 = fX t u := by
+  unfold fX; rw [h1, h2, h3]
+
+/-- a tick changes neither the ranks nor the flag -/
+theorem tick_meas {x : SideId} {s s1 : Sys} (T : TickT iss x s s1) :
+    fB s1 = fB s ∧ ∀ z, rk s1 z = rk s z := by
+  cases ht : (s.side x).tcb with
+  | none =>
+    rw [T.none ht]
+    exact ⟨rfl, fun _ => rfl⟩
+  | some t =>
+    obtain ⟨t1, ht1, k⟩ := T.tcb t ht
+    have hp := T.peer
+    refine ⟨?_, fun z => ?_⟩
+    · cases x with
+      | A =>
+        have e1 : s1.a.tcb = some t1 := ht1
+        have e0 : s.a.tcb = some t := ht
+        have eb : s1.b = s.b := hp
+        unfold fB
+        rw [e1, e0, eb]
+        cases s.b.tcb with
+        | none => rfl
+        | some u =>
+          dsimp only
+          rw [fX_congr k.st k.one rfl, fX_congr (t := u) (t1 := u) rfl rfl k.st]
+      | B =>
+        have e1 : s1.b.tcb = some t1 := ht1
+        have e0 : s.b.tcb = some t := ht
+        have ea : s1.a = s.a := hp
+        unfold fB
+        rw [e1, e0, ea]
+        cases s.a.tcb with
+        | none => rfl
+        | some u =>
+          dsimp only
+          rw [fX_congr k.st k.one rfl, fX_congr (t := u) (t1 := u) rfl rfl k.st]
+    · rcases side_cases x z with rfl | rfl
+      · rw [rk_some ht1, rk_some ht, k.st]
+      · exact rk_congr hp
+
+/-- **one fair round of one phase makes the handshake progress** -/
+theorem fair1_progress (s : Sys) (a : All iss mt s) (hm : ∀ x, SPACE_FOR_HEADERS < (mt x).toNat) :
+    ∃ s', fairRound 1 s = .ok s' ∧ PlainRun s s' ∧ All iss mt s' ∧ (∀ y, (s'.side y).submitted = (s.side y).submitted) ∧
+      ((rk s .A = 3 ∧ rk s .B = 3) ∨ meas s' < meas s) := by
+  obtain ⟨s1, r1, e1, t1⟩ := tick_any s a.good a.f .A
+  have a1 : All iss mt s1 := all_run a t1.run t1.good.room
+  obtain ⟨s2, r2, e2, t2⟩ := tick_any s1 a1.good a1.f .B
+  have a2 : All iss mt s2 := all_run a1 t2.run t2.good.room
+  obtain ⟨s', e3, p3, g3, sub3, T⟩ := phase_any s2 a2.good
+  have pr := (t1.run.trans t2.run).trans p3
+  have a' : All iss mt s' := all_run a pr g3.room
+  refine ⟨s', ?_, pr, a', fun y => by rw [sub3, t2.sub, t1.sub], ?_⟩
+  · unfold fairRound
+    rw [e1]
+    dsimp only
+    rw [e2]
+    simp only [phases, e3]
+  · by_cases hne : rk s .A = 3 ∧ rk s .B = 3
+    · exact Or.inl hne
+    · right
+      obtain ⟨f1, k1⟩ := tick_meas t1
+      obtain ⟨f2, k2⟩ := tick_meas t2
+      have hne2 : ¬ (rk s2 .A = 3 ∧ rk s2 .B = 3) := by rw [k2, k2, k1, k1]; exact hne
+      -- after the ticks every queue entry is flagged
+      have hflag : ∀ z t, (s2.side z).tcb = some t → ∀ tr ∈ t.outgoing.retransmit, tr.needsTransmit = true := by
+        intro z t hz tr htr
+        have key : ∀ (t0 t1' : Tcb), Flagged t0 t1' → ∀ tr ∈ t1'.outgoing.retransmit, tr.needsTransmit = true := by
+          intro t0 t1' k tr htr
+          rw [k.rtx] at htr
+          obtain ⟨x0, _, rfl⟩ := List.mem_map.1 htr
+          rfl
+        cases z with
+        | A =>
+          have hpa : s2.side .A = s1.side .A := t2.peer
+          rw [hpa] at hz
+          cases h0 : (s.side .A).tcb with
+          | none =>
+            have := t1.none h0
+            rw [this, h0] at hz; cases hz
+          | some t0 =>
+            obtain ⟨t1', h1', k⟩ := t1.tcb t0 h0
+            rw [h1'] at hz; cases hz
+            exact key t0 t k tr htr
+        | B =>
+          cases h0 : (s1.side .B).tcb with
+          | none =>
+            have := t2.none h0
+            rw [this, h0] at hz; cases hz
+          | some t0 =>
+            obtain ⟨t1', h1', k⟩ := t2.tcb t0 h0
+            rw [h1'] at hz; cases hz
+            exact key t0 t k tr htr
+      have hA := rk_le3 s' .A
+      have hB := rk_le3 s' .B
+      have mA := rk_mono_run a2.good p3 g3.room .A
+      have mB := rk_mono_run a2.good p3 g3.room .B
+      have hm2 : meas s2 = meas s := by unfold meas; rw [f2, f1, k2, k2, k1, k1]
+      rw [← hm2]
+      rcases phase_progress a2 hm g3 T p3 hflag hne2 with h | ⟨h1, h2⟩
+      · unfold meas
+        split <;> split <;> omega
+      · unfold meas
+        rw [h1, h2]
+        simp only [if_true, Bool.false_eq_true, if_false]
+        omega
+
+/-- **the handshake completes**: from every state satisfying the invariants some fair rounds (at most `meas s` rounds
+    of one phase each) lead to a state in which both endpoints are ESTABLISHED -/
+theorem handshake_rounds (hm : ∀ x, SPACE_FOR_HEADERS < (mt x).toNat) (n : Nat) : ∀ (s : Sys), All iss mt s → meas s ≤ n →
+    ∃ (rounds : List Nat) (s1 : Sys), rounds.foldlM (fun st k => fairRound k st) s = .ok s1 ∧ PlainRun s s1 ∧
+      All iss mt s1 ∧ rk s1 .A = 3 ∧ rk s1 .B = 3 ∧ (∀ y, (s1.side y).submitted = (s.side y).submitted) ∧
+      rounds.length ≤ n := by
+  induction n with
+  | zero =>
+    intro s a hn
+    have hA := rk_le3 s .A
+    have hB := rk_le3 s .B
+    have : rk s .A = 3 ∧ rk s .B = 3 := by
+      unfold meas at hn
+      split at hn <;> omega
+    exact ⟨[], s, rfl, .refl _, a, this.1, this.2, fun _ => rfl, Nat.le_refl _⟩
+  | succ n ih =>
+    intro s a hn
+    obtain ⟨s', e1, p1, a', sub1, hpr⟩ := fair1_progress s a hm
+    rcases hpr with ⟨h1, h2⟩ | hlt
+    · exact ⟨[], s, rfl, .refl _, a, h1, h2, fun _ => rfl, Nat.zero_le _⟩
+    · obtain ⟨rounds, s1, e2, p2, a1, h1, h2, sub2, hl⟩ := ih s' a' (by omega)
+      refine ⟨1 :: rounds, s1, ?_, p1.trans p2, a1, h1, h2, fun y => (sub2 y).trans (sub1 y), by simp; omega⟩
+      simp only [List.foldlM, e1, bind, Except.bind]
+      exact e2
+
 end Elvis.Tcp.Full
